@@ -27,6 +27,11 @@ func (f *FnVC) execInstr(st *State, in ssa.Instruction) {
 		f.set(x, Val{T: r, Typ: x.Type()})
 		if !x.Heap {
 			st.Locals = append(st.Locals, f.objectRefs(r, t, 0)...)
+		} else if f.curNode.it == 0 && !isAggregate(t) && !isArray(t) && f.privateCellInfo(x) != nil {
+			if f.privRefs == nil {
+				f.privRefs = map[*ssa.Alloc]Term{}
+			}
+			f.privRefs[x] = r
 		}
 		// a named variable that lives in a cell: its source name denotes the cell's content in specifications
 		if x.Comment != "" && x.Comment != "complit" && x.Comment != "varargs" && !strings.Contains(x.Comment, " ") {
@@ -371,6 +376,10 @@ func (f *FnVC) unop(st *State, x *ssa.UnOp) {
 		v := f.loadAt(st, p, x.Type())
 		f.assumeKnown(st, v)
 		f.typeInvariant(st, v)
+		if g, ok := x.X.(*ssa.Global); ok && f.E.errSentinel(g) && v.T.Sort == SIface {
+			// package-level error sentinel (set once by errors.New/fmt.Errorf in the initialiser, never reassigned): not nil
+			f.assume(st, not(eq(v.T, Term{"nil_iface", SIface})))
+		}
 		v.GuardLock = f.guardOfField(x.X)
 		f.set(x, v)
 	case token.NOT:
